@@ -23,6 +23,9 @@ import ClarabelProofs.Lemmas.StepArray
 import ClarabelProofs.Lemmas.StepProgress
 import ClarabelProofs.Lemmas.StepSoc
 import ClarabelProofs.Lemmas.StepCones
+import ClarabelProofs.Lemmas.StepGenPow
+import ClarabelProofs.Lemmas.StepPsd
+import ClarabelProofs.Lemmas.StepQuadForm
 import Mathlib.Tactic.NormNum
 import Mathlib.Tactic.Positivity
 
@@ -950,5 +953,336 @@ example (a : ℝ) : ∃ lhs wx wz,
   exact ⟨lhs, wx, wz, h⟩
 
 end array2
+
+/-! ## Round 5: the combined step on the generalised power cone and on the PSD cone -/
+section cones5
+open Clarabel.PsdTri
+
+/-- [F] **Generalised power cone: the `Δs` of the combined step**, on the model's own functions
+(`GenPow.combinedDsShift`, `GenPow.mulHs`; arrays).  The cone has no third-order correction:
+`combined_ds_shift = σμ·grad` whatever the affine directions (C14 `genpow_combined_ds_shift`);
+`affine_ds` copies `s`, so `combined_step_rhs` leaves `rhs.s = 1·shift + 1·s`;
+`Δs_from_Δz_offset` copies `rhs.s`; `DefaultKKTSystem::solve` computes
+`Δs = −1·Δs_const + (−1)·mul_Hs(Δz)` (`Lemmas.genpowDs`, the operation order of the code).  Then,
+with `h` the vector `GenPow.mulHs` returns for `Δz`, entry by entry
+
+  `Δs = −Hs Δz − (s + σμ g(z))`. -/
+theorem genpow_combined_ds (D : GenPow.Data ℝ) (mu : ℝ) (dim1 : Nat) (s dz dza dsa h : Array ℝ)
+    (σμ : ℝ) (hm : GenPow.mulHs D mu dim1 dz = .ok h) (hs : s.size = D.grad.size)
+    (hp : D.p.size = D.grad.size) :
+    GenPow.combinedDsShift D dza dsa σμ = D.grad.map (fun g => g * σμ)
+    ∧ genpowDs D s dza dsa σμ h
+        = Vec.axpby (-1) (Vec.axpby 1 (GenPow.combinedDsShift D dza dsa σμ) 1 s) (-1) h
+    ∧ ∃ hsz : (genpowDs D s dza dsa σμ h).size = D.grad.size, ∃ hh : h.size = D.grad.size,
+        ∀ i (hi : i < D.grad.size),
+          (genpowDs D s dza dsa σμ h)[i]'(hsz ▸ hi)
+            = -h[i]'(hh ▸ hi) - (s[i]'(hs ▸ hi) + σμ * D.grad[i]) :=
+  ⟨rfl, rfl, genpowDs_spec D mu dim1 s dz dza dsa h σμ hm hs hp⟩
+
+/-- non-vacuity of `genpow_combined_ds`: a cone of dimension 2 (`dim1 = dim2 = 1`); `mul_Hs`
+succeeds on a `Δz` of length 2 and `p`, `grad`, `s` have the cone's length -/
+example : ∃ (D : GenPow.Data ℝ) (h s : Array ℝ), GenPow.mulHs D 1 1 #[7, 8] = .ok h
+    ∧ s.size = D.grad.size ∧ D.p.size = D.grad.size :=
+  ⟨⟨#[1, 2], #[1, 2], #[3], #[4], #[5], 6⟩, _, #[1, 1], rfl, rfl, rfl⟩
+
+/-- [F] **Symmetric cones, abstract form with a nonsymmetric scaling operator (PSD).**  The PSD
+cone's `W : X ↦ RᵀXR` is not self-adjoint; the code works with `W` (shape `N`) and `Wᵀ`
+(shape `T`): `mul_Hs = Wᵀ∘W`, `Δs_from_Δz_offset(d) = Wᵀ(λ\d)`, `step_s ← W⁻ᵀΔs`.  With `Wᵀ`
+additive, `W⁻ᵀWᵀ = I`, `λ∘·` odd and `λ∘(λ\d) = d`, the step `Δs = −(mul_Hs Δz +
+Δs_from_Δz_offset(d))` satisfies `λ∘(WΔz + W⁻ᵀΔs) = −d`.  (`symmetric_cone_combined_step` is the
+case `Wᵀ = W`.) -/
+theorem symmetric_cone_combined_step_T {V : Type} [AddCommGroup V] (W Wt Winvt Hs : V → V)
+    (circ : V → V → V) (invc off : V → V) (lam d dz : V)
+    (hWt : ∀ a b, Wt (a + b) = Wt a + Wt b) (hWtneg : ∀ a, Wt (-a) = -Wt a)
+    (hHs : ∀ x, Hs x = Wt (W x)) (hWi : ∀ x, Winvt (Wt x) = x)
+    (hcn : ∀ a, circ lam (-a) = -circ lam a) (hci : circ lam (invc d) = d)
+    (hoff : off d = Wt (invc d)) :
+    circ lam (W dz + Winvt (-(Hs dz + off d))) = -d :=
+  symmetric_cone_complementarity_T W Wt Winvt Hs circ invc off lam d dz hWt hWtneg hHs hWi hcn hci hoff
+
+/-- non-vacuity of `symmetric_cone_combined_step_T`: `V = ℝ`, `W x = Wᵀ x = 2x`, `λ = 3` -/
+example : ∃ (W Wt Winvt Hs : ℝ → ℝ) (circ : ℝ → ℝ → ℝ) (invc off : ℝ → ℝ) (lam d : ℝ),
+    (∀ a b, Wt (a + b) = Wt a + Wt b) ∧ (∀ a, Wt (-a) = -Wt a) ∧ (∀ x, Hs x = Wt (W x))
+    ∧ (∀ x, Winvt (Wt x) = x) ∧ (∀ a, circ lam (-a) = -circ lam a) ∧ circ lam (invc d) = d
+    ∧ off d = Wt (invc d) :=
+  ⟨fun x => 2 * x, fun x => 2 * x, fun x => x / 2, fun x => 4 * x, fun a b => a * b, fun d => d / 3,
+    fun d => 2 * (d / 3), 3, 1, fun a b => by ring, fun a => by ring, fun x => by ring,
+    fun x => by ring, fun a => by ring, by norm_num, rfl⟩
+
+/-- [R] **PSD: the linearised complementarity equation on dense matrices** — the instance of
+`symmetric_cone_combined_step_T` with `V = ℝⁿˣⁿ`, `W X = RᵀXR`, `Wᵀ X = RXRᵀ`,
+`W⁻ᵀ X = R⁻¹XR⁻ᵀ`, `λ∘X = ½(ΛX + XΛ)`, `λ\D = (2Dᵢⱼ/(λᵢ+λⱼ))ᵢⱼ` (`lamInvM`, C13): if `R·R⁻¹ = I`
+and no `λᵢ + λⱼ` vanishes, `ΔS = −(R(RᵀΔZ R)Rᵀ + R(λ\D)Rᵀ)` satisfies
+`½(Λ(WΔZ + W⁻ᵀΔS) + (WΔZ + W⁻ᵀΔS)Λ) = −D`. -/
+theorem psd_matrix_combined_step {n : Nat} (R Ri : Matrix (Fin n) (Fin n) ℝ) (lam : Array ℝ)
+    (D DZ : Matrix (Fin n) (Fin n) ℝ) (hinv : R * Ri = 1)
+    (hne : ∀ i j, i < n → j < n → lam.getD i 0 + lam.getD j 0 ≠ 0) :
+    (1 / 2 : ℝ) • (Matrix.diagonal (fun i : Fin n => lam.getD i 0)
+          * (Rᵀ * DZ * R + Ri * (-(R * (Rᵀ * DZ * R) * Rᵀ + R * lamInvM lam D * Rᵀ)) * Riᵀ)
+        + (Rᵀ * DZ * R + Ri * (-(R * (Rᵀ * DZ * R) * Rᵀ + R * lamInvM lam D * Rᵀ)) * Riᵀ)
+          * Matrix.diagonal (fun i : Fin n => lam.getD i 0)) = -D :=
+  psd_matrix_step R Ri lam D DZ hinv hne
+
+/-- [R] **PSD: the step of `DefaultKKTSystem::solve` satisfies the linearised complementarity
+equation, for any right-hand side `d = rhs.s`**, on the PSD model's own array functions
+(`PsdTri.mulHs`, `dsFromDzOffset`, `mulW`, `mulWinv`, `circOp`; C13), conditional on the LAPACK
+contract `R·R⁻¹ = I` (conclusion of C13 `psd_assemble_nt`) and `λᵢ + λⱼ ≠ 0` (positive singular
+values).  All five calls succeed and, with `h = mul_Hs(Δz)`, `c = Δs_from_Δz_offset(d)`,
+`Δs = −1·c + (−1)·h`, `p = WΔz`, `r = W⁻ᵀΔs`:
+
+  `λ ∘ (WΔz + W⁻ᵀΔs) = −d`   (`λ` in vector form `svec(diag λ)`). -/
+theorem psd_combined_step_general (K : PsdTri.Cone ℝ) (d dz y y' : Array ℝ)
+    (hR : K.R.size = K.n * K.n) (hRi : K.Rinv.size = K.n * K.n) (hl : K.lam.size = K.n)
+    (hd : d.size = PsdIndex.triangularNumber K.n) (hdz : dz.size = PsdIndex.triangularNumber K.n)
+    (hy : y.size = PsdIndex.triangularNumber K.n) (hy' : y'.size = PsdIndex.triangularNumber K.n)
+    (hinv : toM K.n (matOf K.n K.R) * toM K.n (matOf K.n K.Rinv) = 1)
+    (hne : ∀ i j, i < K.n → j < K.n → K.lam.getD i 0 + K.lam.getD j 0 ≠ 0) :
+    ∃ h c p r, PsdTri.mulHs K dz = .ok h ∧ PsdTri.dsFromDzOffset K d = .ok c ∧
+      mulW K false y dz 1 0 = .ok p ∧
+      mulWinv K true y' (Vec.axpby (-1) c (-1) h) 1 0 = .ok r ∧
+      PsdTri.circOp K.n (lamVec K.n K.lam) (Vec.waxpby 1 p 1 r) = .ok (Vec.negate d) :=
+  psd_step_general K d dz y y' hR hRi hl hd hdz hy hy' hinv hne
+
+/-- [R] **PSD: the combined step satisfies the linearised complementarity equation exactly.**
+Under the same contracts, `combined_step_rhs` leaves `d = rhs.s = 1·shift + 1·affine_ds` with
+`(shift, step_z, step_s) = combined_ds_shift(Δzᵃ, Δsᵃ, σμ)` (`Δzᵃ` already scaled by the damping
+`m`) and `affine_ds = λ∘λ`; `DefaultKKTSystem::solve` computes
+`Δs = −1·Δs_from_Δz_offset(d) + (−1)·mul_Hs(Δz)`.  All calls succeed and, for every `Δz`,
+
+  `λ ∘ (WΔz + W⁻ᵀΔs) = −d`,   `mat(d) = (W⁻ᵀΔsᵃ)∘(WΔzᵃ) − σμ·I + Λ²`,
+
+i.e. `λ ∘ (WΔz + W⁻ᵀΔs) = σμe − λ∘λ − (W⁻ᵀΔsᵃ)∘(WΔzᵃ)`, with `WΔzᵃ = RᵀΔZᵃR`,
+`W⁻ᵀΔsᵃ = R⁻¹ΔSᵃR⁻ᵀ` and `A∘B = ½(AB + BA)`. -/
+theorem psd_combined_step_equation (K : PsdTri.Cone ℝ) (dza dsa dz y y' : Array ℝ) (σμ : ℝ)
+    (hR : K.R.size = K.n * K.n) (hRi : K.Rinv.size = K.n * K.n) (hl : K.lam.size = K.n)
+    (hza : dza.size = PsdIndex.triangularNumber K.n) (hsa : dsa.size = PsdIndex.triangularNumber K.n)
+    (hdz : dz.size = PsdIndex.triangularNumber K.n)
+    (hy : y.size = PsdIndex.triangularNumber K.n) (hy' : y'.size = PsdIndex.triangularNumber K.n)
+    (hinv : toM K.n (matOf K.n K.R) * toM K.n (matOf K.n K.Rinv) = 1)
+    (hne : ∀ i j, i < K.n → j < K.n → K.lam.getD i 0 + K.lam.getD j 0 ≠ 0) :
+    ∃ sh wz ws aff h c p r,
+      PsdTri.combinedDsShift K dza dsa σμ = .ok (sh, wz, ws) ∧
+      PsdTri.affineDs K (PsdIndex.triangularNumber K.n) = .ok aff ∧
+      PsdTri.circOp K.n (lamVec K.n K.lam) (lamVec K.n K.lam) = .ok aff ∧
+      PsdTri.mulHs K dz = .ok h ∧
+      PsdTri.dsFromDzOffset K (Vec.axpby 1 sh 1 aff) = .ok c ∧
+      mulW K false y dz 1 0 = .ok p ∧
+      mulWinv K true y' (Vec.axpby (-1) c (-1) h) 1 0 = .ok r ∧
+      PsdTri.circOp K.n (lamVec K.n K.lam) (Vec.waxpby 1 p 1 r)
+        = .ok (Vec.negate (Vec.axpby 1 sh 1 aff)) ∧
+      toM K.n (svecToMat (Vec.axpby 1 sh 1 aff))
+        = (1 / 2 : ℝ) •
+            ((toM K.n (matOf K.n K.Rinv) * toM K.n (svecToMat dsa) * (toM K.n (matOf K.n K.Rinv))ᵀ)
+              * ((toM K.n (matOf K.n K.R))ᵀ * toM K.n (svecToMat dza) * toM K.n (matOf K.n K.R))
+            + ((toM K.n (matOf K.n K.R))ᵀ * toM K.n (svecToMat dza) * toM K.n (matOf K.n K.R))
+              * (toM K.n (matOf K.n K.Rinv) * toM K.n (svecToMat dsa) * (toM K.n (matOf K.n K.Rinv))ᵀ))
+          - σμ • (1 : Matrix (Fin K.n) (Fin K.n) ℝ)
+          + Matrix.diagonal (fun i : Fin K.n => K.lam.getD i 0)
+            * Matrix.diagonal (fun i : Fin K.n => K.lam.getD i 0) :=
+  psd_combined_step K dza dsa dz y y' σμ hR hRi hl hza hsa hdz hy hy' hinv hne
+
+/-- non-vacuity of `psd_combined_step_general` / `psd_combined_step_equation` (and of
+`psd_matrix_combined_step` with `R = (2)`, `R⁻¹ = (1/2)`): `n = 1`, `R = (2)`, `R⁻¹ = (1/2)`,
+`λ = (1)`; vectors of length `1 = n(n+1)/2` -/
+example : ∃ K : PsdTri.Cone ℝ, K.R.size = K.n * K.n ∧ K.Rinv.size = K.n * K.n ∧ K.lam.size = K.n ∧
+    (#[3] : Array ℝ).size = PsdIndex.triangularNumber K.n ∧
+    toM K.n (matOf K.n K.R) * toM K.n (matOf K.n K.Rinv) = 1 ∧
+    (∀ i j, i < K.n → j < K.n → K.lam.getD i 0 + K.lam.getD j 0 ≠ 0) := by
+  refine ⟨⟨1, #[1], #[1], #[2], #[1 / 2], #[1]⟩, rfl, rfl, rfl, rfl, ?_, ?_⟩
+  · ext i j
+    fin_cases i; fin_cases j
+    simp [Matrix.mul_apply, toM, matOf]
+  · intro i j hi hj
+    have hi' : i = 0 := by simp at hi; omega
+    have hj' : j = 0 := by simp at hj; omega
+    subst hi' hj'
+    simp
+
+end cones5
+
+/-! ## Round 5: the contract of `_csc_quad_form` discharged (`hqf` dropped from the `_array` theorems) -/
+section array_qf
+variable {n m : ℕ}
+
+/-- [F] **the contract of `_csc_quad_form`** (hypothesis `hqf` of the `_array` theorems): for a
+canonical, square (`n × n`), upper-triangular CSC matrix `Pc` and vectors of length `n`, the model
+`KktSystem.quadForm` of `_csc_quad_form` (the function the `kkt.quad_form` channel compares with the
+code) returns `yᵀ·Sym(Pc)·x`, `Sym(Pc) = KktSystem.symMat Pc n` the symmetric matrix whose upper
+triangle `Pc` stores — and that matrix is symmetric.  (Proved by showing `KktSystem.quadForm` equal
+to C16's list-form `Csc.quadForm` on such inputs, `KktSystem.quadForm_eq_csc`, then
+`C16.quadForm_spec`.) -/
+theorem quad_form_contract (Pc : Csc ℝ) (hPc : C16.Canonical Pc) (hPm : Pc.m = n) (hPn : Pc.n = n)
+    (hPt : Pc.isTriu = true) :
+    (∀ a b : Array ℝ, a.size = n → b.size = n →
+      KktSystem.quadForm Pc a b = .ok (toFn a n ⬝ᵥ KktSystem.symMat Pc n *ᵥ toFn b n))
+    ∧ (KktSystem.symMat Pc n)ᵀ = KktSystem.symMat Pc n :=
+  ⟨KktSystem.quadForm_dense_real Pc hPc hPm hPn hPt, KktSystem.symMat_transpose Pc n⟩
+
+/-- [S] (any scalar type, also `Float`) on canonical square upper-triangular input with vectors of
+the right length, the for-loop model `KktSystem.quadForm` and C16's list model `Csc.quadForm` of
+`_csc_quad_form` are the same function (success path; the panic messages differ). -/
+theorem quad_form_models_agree {α : Type} [Add α] [Sub α] [Mul α] [Div α] [Neg α] [BEq α] [OfNat α 0]
+    [OfNat α 1] (M : Csc α) (y x : Array α) (hM : C16.Canonical M) (hsq : M.m = M.n)
+    (htri : M.isTriu = true) (hx : x.size = M.n) (hy : y.size = M.n) :
+    KktSystem.quadForm M y x = Csc.quadForm M y x :=
+  KktSystem.quadForm_eq_csc M y x hM hsq htri hx hy
+
+/-- non-vacuity: the upper triangle of `[[2,1],[1,3]]` is canonical, square, upper triangular, and
+its `symMat` is that matrix -/
+example : C16.Canonical KktSystem.exP2 ∧ KktSystem.exP2.m = 2 ∧ KktSystem.exP2.n = 2
+    ∧ KktSystem.exP2.isTriu = true :=
+  ⟨KktSystem.exP2_canonical, rfl, rfl, rfl⟩
+
+/-- [R] **`reduced_solve_is_newton_array` without the hypothesis `hqf`**: the contract of
+`_csc_quad_form` is now a theorem (`KktSystem.quadForm_dense`: for a canonical, square,
+upper-triangular CSC matrix `Pc` — what `P.to_triu()` stores — `KktSystem.quadForm Pc y x` is
+`yᵀ·Sym(Pc)·x` with `Sym(Pc) = Pc + Pcᵀ − diag Pc = KktSystem.symMat Pc n`, a symmetric matrix).  So
+`P` is no longer a free symmetric matrix tied to `Pc` by a hypothesis: it IS the dense symmetric
+matrix of the stored triangle. -/
+theorem reduced_solve_is_newton_array' (A : Matrix (Fin m) (Fin n) ℝ) (Pc : Csc ℝ)
+    (hPc : C16.Canonical Pc) (hPm : Pc.m = n) (hPn : Pc.n = n) (hPt : Pc.isTriu = true)
+    (mask : List Bool) (q b : Array ℝ) (vars rhs : Vars ℝ) (affine : Bool) (x1 z1 x2 z2 : Array ℝ)
+    (hm : mask.length = m) (hq : q.size = n) (hb : b.size = m) (hvx : vars.x.size = n)
+    (hvs : vars.s.size = m) (hvz : vars.z.size = m) (hrx : rhs.x.size = n) (hrs : rhs.s.size = m)
+    (hrz : rhs.z.size = m) (hx1 : x1.size = n) (hz1 : z1.size = m) (hx2 : x2.size = n)
+    (hz2 : z2.size = m) (hτ : vars.τ ≠ 0) (hint : NNInterior mask vars.s vars.z m)
+    (h1x : (KktSystem.symMat Pc n) *ᵥ toFn x1 n + Aᵀ *ᵥ toFn z1 m = toFn rhs.x n)
+    (h1z : A *ᵥ toFn x1 n - Hnn mask vars.s vars.z m *ᵥ toFn z1 m
+      = dsConstFn mask vars rhs affine m - toFn rhs.z m)
+    (h2x : (KktSystem.symMat Pc n) *ᵥ toFn x2 n + Aᵀ *ᵥ toFn z2 m = -toFn q n)
+    (h2z : A *ᵥ toFn x2 n - Hnn mask vars.s vars.z m *ᵥ toFn z2 m = toFn b m)
+    (hden : KktSystem.tauDen vars.κ vars.τ (toFn q n ⬝ᵥ toFn x2 n) (toFn b m ⬝ᵥ toFn z2 m)
+        (((-1 : ℝ) • toFn x2 n + (1 : ℝ) • ((1 / vars.τ) • toFn vars.x n)) ⬝ᵥ
+          (KktSystem.symMat Pc n) *ᵥ ((-1 : ℝ) • toFn x2 n + (1 : ℝ) • ((1 / vars.τ) • toFn vars.x n)))
+        (toFn x2 n ⬝ᵥ (KktSystem.symMat Pc n) *ᵥ toFn x2 n) ≠ 0) :
+    ∃ lhs wx wz,
+      KktSystem.solveNN Pc mask (updateScaling mask vars.s vars.z).2 q b vars rhs affine x1 z1 x2 z2
+        = .ok (lhs, wx, wz)
+      ∧ lhs.x.size = n ∧ lhs.s.size = m ∧ lhs.z.size = m
+      ∧ IsNewtonStep (KktSystem.symMat Pc n) A (Hnn mask vars.s vars.z m) (toFn q n) (toFn b m) (toFn vars.x n) vars.τ
+          vars.κ (toFn rhs.x n) (toFn rhs.z m) rhs.τ (dsConstFn mask vars rhs affine m) rhs.κ
+          ⟨toFn lhs.x n, toFn lhs.s m, toFn lhs.z m, lhs.τ, lhs.κ⟩ :=
+  reduced_solve_is_newton_array (KktSystem.symMat Pc n) (KktSystem.symMat_transpose Pc n) A Pc
+    (KktSystem.quadForm_dense_real Pc hPc hPm hPn hPt) mask q b vars rhs affine x1 z1 x2 z2 hm hq hb hvx hvs hvz hrx hrs hrz hx1 hz1 hx2 hz2 hτ hint h1x h1z h2x h2z hden
+
+/-- [R] `residual_contraction_array` without `hqf` (`P := KktSystem.symMat Pc n`, the symmetric
+matrix whose upper triangle `Pc` stores; `Pc` canonical, square, upper triangular). -/
+theorem residual_contraction_array' (A : Matrix (Fin m) (Fin n) ℝ) (Pc : Csc ℝ)
+    (hPc : C16.Canonical Pc) (hPm : Pc.m = n) (hPn : Pc.n = n) (hPt : Pc.isTriu = true)
+    (mask : List Bool) (q b rx rz : Array ℝ) (rτ : ℝ) (vars stepa rhs : Vars ℝ) (σ μ mm a : ℝ)
+    (x1 z1 x2 z2 : Array ℝ)
+    (hm : mask.length = m) (hq : q.size = n) (hb : b.size = m) (hvx : vars.x.size = n)
+    (hvs : vars.s.size = m) (hvz : vars.z.size = m) (hrx : rx.size = n) (hrz : rz.size = m)
+    (has : stepa.s.size = m) (haz : stepa.z.size = m)
+    (hx1 : x1.size = n) (hz1 : z1.size = m) (hx2 : x2.size = n)
+    (hz2 : z2.size = m) (hτ : vars.τ ≠ 0) (hint : NNInterior mask vars.s vars.z m)
+    (hrX : toFn rx n = resX (KktSystem.symMat Pc n) A (toFn q n) (toFn vars.x n) (toFn vars.z m) vars.τ)
+    (hrZ : toFn rz m = resZ A (toFn b m) (toFn vars.x n) (toFn vars.s m) vars.τ)
+    (hrT : rτ = resT (KktSystem.symMat Pc n) (toFn q n) (toFn b m) (toFn vars.x n) (toFn vars.z m) vars.τ vars.κ)
+    (hrhs : rhs = (combinedStepRhs mask (updateScaling mask vars.s vars.z).2
+      (affineStepRhs mask rx rz rτ (updateScaling mask vars.s vars.z).1 vars) rx rz rτ vars stepa
+      σ μ mm).1)
+    (h1x : (KktSystem.symMat Pc n) *ᵥ toFn x1 n + Aᵀ *ᵥ toFn z1 m = toFn rhs.x n)
+    (h1z : A *ᵥ toFn x1 n - Hnn mask vars.s vars.z m *ᵥ toFn z1 m
+      = dsConstFn mask vars rhs false m - toFn rhs.z m)
+    (h2x : (KktSystem.symMat Pc n) *ᵥ toFn x2 n + Aᵀ *ᵥ toFn z2 m = -toFn q n)
+    (h2z : A *ᵥ toFn x2 n - Hnn mask vars.s vars.z m *ᵥ toFn z2 m = toFn b m)
+    (hden : KktSystem.tauDen vars.κ vars.τ (toFn q n ⬝ᵥ toFn x2 n) (toFn b m ⬝ᵥ toFn z2 m)
+        (((-1 : ℝ) • toFn x2 n + (1 : ℝ) • ((1 / vars.τ) • toFn vars.x n)) ⬝ᵥ
+          (KktSystem.symMat Pc n) *ᵥ ((-1 : ℝ) • toFn x2 n + (1 : ℝ) • ((1 / vars.τ) • toFn vars.x n)))
+        (toFn x2 n ⬝ᵥ (KktSystem.symMat Pc n) *ᵥ toFn x2 n) ≠ 0) :
+    ∃ lhs wx wz,
+      KktSystem.solveNN Pc mask (updateScaling mask vars.s vars.z).2 q b vars rhs false x1 z1 x2 z2
+        = .ok (lhs, wx, wz)
+      ∧ (vars.τ + a * lhs.τ ≠ 0 →
+        resX (KktSystem.symMat Pc n) A (toFn q n) (toFn (addStep vars lhs a).x n) (toFn (addStep vars lhs a).z m)
+            (addStep vars lhs a).τ = (1 - a * (1 - σ)) • toFn rx n
+        ∧ resZ A (toFn b m) (toFn (addStep vars lhs a).x n) (toFn (addStep vars lhs a).s m)
+            (addStep vars lhs a).τ = (1 - a * (1 - σ)) • toFn rz m
+        ∧ resT (KktSystem.symMat Pc n) (toFn q n) (toFn b m) (toFn (addStep vars lhs a).x n)
+            (toFn (addStep vars lhs a).z m) (addStep vars lhs a).τ (addStep vars lhs a).κ
+          = (1 - a * (1 - σ)) * rτ
+            + a ^ 2 * ((toFn lhs.x n - lhs.τ • ((1 / vars.τ) • toFn vars.x n)) ⬝ᵥ
+                (KktSystem.symMat Pc n) *ᵥ (toFn lhs.x n - lhs.τ • ((1 / vars.τ) • toFn vars.x n)))
+              / (vars.τ + a * lhs.τ)) :=
+  residual_contraction_array (KktSystem.symMat Pc n) (KktSystem.symMat_transpose Pc n) A Pc
+    (KktSystem.quadForm_dense_real Pc hPc hPm hPn hPt) mask q b rx rz rτ vars stepa rhs σ μ mm a x1 z1 x2 z2 hm hq hb hvx hvs hvz hrx hrz has haz hx1 hz1 hx2 hz2 hτ hint hrX hrZ hrT hrhs h1x h1z h2x h2z hden
+
+/-- [R] `mu_update_nn_array` without `hqf` (`P := KktSystem.symMat Pc n`). -/
+theorem mu_update_nn_array' (A : Matrix (Fin m) (Fin n) ℝ) (Pc : Csc ℝ)
+    (hPc : C16.Canonical Pc) (hPm : Pc.m = n) (hPn : Pc.n = n) (hPt : Pc.isTriu = true)
+    (mask : List Bool) (q b rx rz : Array ℝ) (rτ : ℝ) (vars stepa rhs : Vars ℝ) (σ μ mm a : ℝ)
+    (x1 z1 x2 z2 : Array ℝ)
+    (hm : mask.length = m) (hq : q.size = n) (hb : b.size = m) (hvx : vars.x.size = n)
+    (hvs : vars.s.size = m) (hvz : vars.z.size = m) (hrx : rx.size = n) (hrz : rz.size = m)
+    (has : stepa.s.size = m) (haz : stepa.z.size = m)
+    (hx1 : x1.size = n) (hz1 : z1.size = m) (hx2 : x2.size = n)
+    (hz2 : z2.size = m) (hτ : vars.τ ≠ 0) (hint : NNInterior mask vars.s vars.z m)
+    (hzero : ∀ i : Fin m, maskFn mask m i = false → toFn vars.s m i = 0)
+    (hμ : μ = calcMu (Vec.dot vars.s vars.z) vars.τ vars.κ (mask.count true))
+    (hrhs : rhs = (combinedStepRhs mask (updateScaling mask vars.s vars.z).2
+      (affineStepRhs mask rx rz rτ (updateScaling mask vars.s vars.z).1 vars) rx rz rτ vars stepa
+      σ μ mm).1)
+    (h1x : (KktSystem.symMat Pc n) *ᵥ toFn x1 n + Aᵀ *ᵥ toFn z1 m = toFn rhs.x n)
+    (h1z : A *ᵥ toFn x1 n - Hnn mask vars.s vars.z m *ᵥ toFn z1 m
+      = dsConstFn mask vars rhs false m - toFn rhs.z m)
+    (h2x : (KktSystem.symMat Pc n) *ᵥ toFn x2 n + Aᵀ *ᵥ toFn z2 m = -toFn q n)
+    (h2z : A *ᵥ toFn x2 n - Hnn mask vars.s vars.z m *ᵥ toFn z2 m = toFn b m)
+    (hden : KktSystem.tauDen vars.κ vars.τ (toFn q n ⬝ᵥ toFn x2 n) (toFn b m ⬝ᵥ toFn z2 m)
+        (((-1 : ℝ) • toFn x2 n + (1 : ℝ) • ((1 / vars.τ) • toFn vars.x n)) ⬝ᵥ
+          (KktSystem.symMat Pc n) *ᵥ ((-1 : ℝ) • toFn x2 n + (1 : ℝ) • ((1 / vars.τ) • toFn vars.x n)))
+        (toFn x2 n ⬝ᵥ (KktSystem.symMat Pc n) *ᵥ toFn x2 n) ≠ 0) :
+    ∃ lhs wx wz,
+      KktSystem.solveNN Pc mask (updateScaling mask vars.s vars.z).2 q b vars rhs false x1 z1 x2 z2
+        = .ok (lhs, wx, wz)
+      ∧ calcMu (Vec.dot (addStep vars lhs a).s (addStep vars lhs a).z) (addStep vars lhs a).τ
+          (addStep vars lhs a).κ (mask.count true)
+        = (1 - a * (1 - σ)) * μ
+          - a * mm * ((∑ i : Fin m, if maskFn mask m i then toFn stepa.s m i * toFn stepa.z m i else 0)
+              + stepa.τ * stepa.κ) / ((mask.count true : ℝ) + 1)
+          + a ^ 2 * (toFn lhs.s m ⬝ᵥ toFn lhs.z m + lhs.τ * lhs.κ) / ((mask.count true : ℝ) + 1) :=
+  mu_update_nn_array (KktSystem.symMat Pc n) (KktSystem.symMat_transpose Pc n) A Pc
+    (KktSystem.quadForm_dense_real Pc hPc hPm hPn hPt) mask q b rx rz rτ vars stepa rhs σ μ mm a x1 z1 x2 z2 hm hq hb hvx hvs hvz hrx hrz has haz hx1 hz1 hx2 hz2 hτ hint hzero hμ hrhs h1x h1z h2x h2z hden
+
+/-- [R] `residual_contraction_affine_array` without `hqf` (`P := KktSystem.symMat Pc n`). -/
+theorem residual_contraction_affine_array' (A : Matrix (Fin m) (Fin n) ℝ) (Pc : Csc ℝ)
+    (hPc : C16.Canonical Pc) (hPm : Pc.m = n) (hPn : Pc.n = n) (hPt : Pc.isTriu = true)
+    (mask : List Bool) (q b rx rz : Array ℝ) (rτ : ℝ) (vars rhs : Vars ℝ) (a : ℝ)
+    (x1 z1 x2 z2 : Array ℝ)
+    (hm : mask.length = m) (hq : q.size = n) (hb : b.size = m) (hvx : vars.x.size = n)
+    (hvs : vars.s.size = m) (hvz : vars.z.size = m) (hrx : rx.size = n) (hrz : rz.size = m)
+    (hx1 : x1.size = n) (hz1 : z1.size = m) (hx2 : x2.size = n)
+    (hz2 : z2.size = m) (hτ : vars.τ ≠ 0) (hint : NNInterior mask vars.s vars.z m)
+    (hrX : toFn rx n = resX (KktSystem.symMat Pc n) A (toFn q n) (toFn vars.x n) (toFn vars.z m) vars.τ)
+    (hrZ : toFn rz m = resZ A (toFn b m) (toFn vars.x n) (toFn vars.s m) vars.τ)
+    (hrT : rτ = resT (KktSystem.symMat Pc n) (toFn q n) (toFn b m) (toFn vars.x n) (toFn vars.z m) vars.τ vars.κ)
+    (hrhs : rhs = affineStepRhs mask rx rz rτ (updateScaling mask vars.s vars.z).1 vars)
+    (h1x : (KktSystem.symMat Pc n) *ᵥ toFn x1 n + Aᵀ *ᵥ toFn z1 m = toFn rhs.x n)
+    (h1z : A *ᵥ toFn x1 n - Hnn mask vars.s vars.z m *ᵥ toFn z1 m
+      = dsConstFn mask vars rhs true m - toFn rhs.z m)
+    (h2x : (KktSystem.symMat Pc n) *ᵥ toFn x2 n + Aᵀ *ᵥ toFn z2 m = -toFn q n)
+    (h2z : A *ᵥ toFn x2 n - Hnn mask vars.s vars.z m *ᵥ toFn z2 m = toFn b m)
+    (hden : KktSystem.tauDen vars.κ vars.τ (toFn q n ⬝ᵥ toFn x2 n) (toFn b m ⬝ᵥ toFn z2 m)
+        (((-1 : ℝ) • toFn x2 n + (1 : ℝ) • ((1 / vars.τ) • toFn vars.x n)) ⬝ᵥ
+          (KktSystem.symMat Pc n) *ᵥ ((-1 : ℝ) • toFn x2 n + (1 : ℝ) • ((1 / vars.τ) • toFn vars.x n)))
+        (toFn x2 n ⬝ᵥ (KktSystem.symMat Pc n) *ᵥ toFn x2 n) ≠ 0) :
+    ∃ lhs wx wz,
+      KktSystem.solveNN Pc mask (updateScaling mask vars.s vars.z).2 q b vars rhs true x1 z1 x2 z2
+        = .ok (lhs, wx, wz)
+      ∧ (vars.τ + a * lhs.τ ≠ 0 →
+        resX (KktSystem.symMat Pc n) A (toFn q n) (toFn (addStep vars lhs a).x n) (toFn (addStep vars lhs a).z m)
+            (addStep vars lhs a).τ = (1 - a) • toFn rx n
+        ∧ resZ A (toFn b m) (toFn (addStep vars lhs a).x n) (toFn (addStep vars lhs a).s m)
+            (addStep vars lhs a).τ = (1 - a) • toFn rz m
+        ∧ resT (KktSystem.symMat Pc n) (toFn q n) (toFn b m) (toFn (addStep vars lhs a).x n)
+            (toFn (addStep vars lhs a).z m) (addStep vars lhs a).τ (addStep vars lhs a).κ
+          = (1 - a) * rτ
+            + a ^ 2 * ((toFn lhs.x n - lhs.τ • ((1 / vars.τ) • toFn vars.x n)) ⬝ᵥ
+                (KktSystem.symMat Pc n) *ᵥ (toFn lhs.x n - lhs.τ • ((1 / vars.τ) • toFn vars.x n)))
+              / (vars.τ + a * lhs.τ)) :=
+  residual_contraction_affine_array (KktSystem.symMat Pc n) (KktSystem.symMat_transpose Pc n) A Pc
+    (KktSystem.quadForm_dense_real Pc hPc hPm hPn hPt) mask q b rx rz rτ vars rhs a x1 z1 x2 z2 hm hq hb hvx hvs hvz hrx hrz hx1 hz1 hx2 hz2 hτ hint hrX hrZ hrT hrhs h1x h1z h2x h2z hden
+
+end array_qf
 
 end Clarabel.C06
